@@ -3,9 +3,10 @@
   TreeifyErrorWithMapper / processIssueInTree, FormatErrorWithMapper, PrettifyErrorWithFormatter)
   and internal/utils/utils.go (ToDotPath, needsBracketNotation, isIdentChar).
 
-  Transcribed AS THE CODE COMPUTES THEM, after the proposed patches pending/C19-format-wrappers.diff
-  and pending/C19-dotpath-first-segment.diff (`formatError`, `dotPath`).  The code as it stood
-  before the patches is kept as `formatLegacy` / `dotPathLegacy` for the witness theorems.
+  Transcribed AS THE CODE COMPUTES THEM at /repo HEAD, i.e. after the fix commits 34fe188
+  (FormatError wrappers), ba66c69 (first segment quoted) and c7ce73a (quoted keys escaped, empty key
+  quoted): `formatError`, `dotPathEsc`.  The code as it stood before each fix is kept as
+  `formatLegacy` / `dotPathLegacy` (before ba66c69) / `dotPath` (before c7ce73a) for the witness theorems.
 
   Conventions
   * A path element is a string key or a non-negative int index (`Seg`).  `Seg.render` is
@@ -253,7 +254,7 @@ def needsBracketChars : List Char → Bool
 
 def needsBracket (s : String) : Bool := needsBracketChars s.toList
 
-/-- one segment of utils.ToDotPath (`first` = it is segment 0) -/
+/-- one segment of utils.ToDotPath before c7ce73a (`first` = it is segment 0) -/
 def segDot (first : Bool) : Seg → List Char
   | .idx n => '[' :: (toString n).toList ++ [']']
   | .key s =>
@@ -279,9 +280,10 @@ def dotCharsLegacy : List Seg → List Char
 
 def dotPathLegacy (p : List Seg) : String := String.ofList (dotCharsLegacy p)
 
-/-! ### ToDotPath after pending/C19-dotpath-escape.diff: a quoted key is a string literal
+/-! ### utils.ToDotPath AS IT STANDS (since c7ce73a): a quoted key is a string literal
     (`quotedKeyEscaper`: `\` → `\\`, `"` → `\"`), and the empty key is quoted too
-    (`case v == "" || needsBracketNotation(v)`). -/
+    (`case v == "" || needsBracketNotation(v)`).  `segDot` / `dotPath` above are the code between
+    ba66c69 and c7ce73a (quoted keys copied verbatim, empty key bare), kept for the witness theorems. -/
 
 /-- `quotedKeyEscaper.Replace` on one character -/
 def escChar (c : Char) : List Char :=
@@ -294,7 +296,7 @@ def escChars : List Char → List Char
 /-- the key is written between `["` and `"]` -/
 def quotedKey (s : String) : Bool := s.toList.isEmpty || needsBracket s
 
-/-- one segment of the patched utils.ToDotPath (`first` = it is segment 0) -/
+/-- one segment of utils.ToDotPath (`first` = it is segment 0) -/
 def segDotEsc (first : Bool) : Seg → List Char
   | .idx n => '[' :: (toString n).toList ++ [']']
   | .key s =>
@@ -316,7 +318,7 @@ def dotPathEsc (p : List Seg) : String := String.ofList (dotCharsEsc p)
 def prettySeg (i : Issue) : String :=
   match i.path with
   | [] => i.msg
-  | p => dotPath p ++ ": " ++ i.msg
+  | p => dotPathEsc p ++ ": " ++ i.msg
 
 def prettySegs (is : List Issue) : List String :=
   match is with
